@@ -1,6 +1,7 @@
 import PwVerif.Model.ForLoop
+import PwVerif.Proofs.BridgeC16C01
 import PwVerif.Model.Proto
-open PwVerif PwVerif.ForLoop PwVerif.Proto
+open PwVerif PwVerif.ForLoop PwVerif.Proto PwVerif.BridgeC16C01
 
 /-! Line-protocol driver of the for-loop model. Labels and values are strings; the body
 function of output `o` with symbol `g` is the term constructor `g(arg,…)`.
@@ -14,7 +15,10 @@ function of output `o` with symbol `g` is the term constructor `g(arg,…)`.
     checkcols on|off               does class creation refuse column names that are not pairwise distinct
     begin                          make the for-node class and instance  → children | mk err <kind>
     set <k> nd | one <v> | many <v>…
-    run <completed body indices>   → res / outputs / children      (runq: without children)
+    run <completed body indices>   → res / outputs / children / wiring (table form)   (runq: res / outputs)
+    reload                         pickle round trip at rest → rl / outputs / children
+    snaprun <completed…>           as run; then the state becomes the copy restored from a pickle taken while the
+                                   bodies of THIS run were out → snap ok / outputs / children   |  snap none
     data <k> missing|nolen|<n>    then   maps <-|=k,k,…> <-|=k,…>   (pure `dictionary_to_index_maps`)
 -/
 
@@ -102,6 +106,30 @@ def parseKeys (w : String) : Option (Option (List String)) :=
 def setCur (cur : Cur String String) (k : String) (v : InVal String) : Cur String String :=
   cur.map fun kv => if kv.1 = k then (kv.1, v) else kv
 
+/-- the data wiring of the present sub-graph as the C16→C01 bridge describes it (`forSlots`): every
+non-input child with the first upstream of each of its input channels -/
+def showWire (sp : Spec String String) (st : St String String) : List String :=
+  if !sp.asDf || !decide (columns sp).Nodup then [] else
+  let P := nIn sp
+  let nameOf (id : Nat) : String :=
+    let x := id / 5
+    if id % 5 = 0 then sp.bodyInputs.getD x "?"
+    else if id % 5 = 1 then s!"item:{sp.bodyInputs.getD (x % P) "?"}:{x / P}"
+    else if id % 5 = 2 then s!"body:{x}"
+    else if id % 5 = 3 then s!"rowc:{x}"
+    else "dataframe"
+  let idOf : Child String → Option Nat
+    | .input _ => none
+    | .item k i => some (itemId P (pos sp k) i)
+    | .body n => some (bodyId n)
+    | .rowc n => some (rowId n)
+    | .dataframe => some dfId
+    | .colc _ => none
+  ["wire " ++ " ".intercalate (st.children.filterMap fun c =>
+    (idOf c).map fun id =>
+      showChild c ++ "[" ++ ",".intercalate ((forSlots sp st.maps id).map fun slot =>
+        match slot with | [] => "" | u :: _ => nameOf u) ++ "]")]
+
 def doRun (d : DSt) (ord : List String) (quiet : Bool) : DSt × List String :=
   match nats ord with
   | none => (d, ["bad-op"])
@@ -109,7 +137,16 @@ def doRun (d : DSt) (ord : List String) (quiet : Bool) : DSt × List String :=
     if !d.begun then (d, ["bad-op"]) else
     let (st, r) := run d.spec d.st d.cur order
     let d' := { d with st }
-    (d', [showRes r, showOuts st.outs] ++ (if quiet then [] else [showChildren st.children]))
+    (d', [showRes r, showOuts st.outs] ++
+      (if quiet then [] else [showChildren st.children] ++ showWire d.spec st))
+
+def doSnapRun (d : DSt) (ord : List String) : DSt × List String :=
+  let pre := d.st
+  let (d1, out) := doRun d ord false
+  if out = ["bad-op"] then (d, out) else
+  match midRun d.spec pre d.cur with
+  | some st' => ({ d1 with st := st' }, out ++ ["snap ok", showOuts st'.outs, showChildren st'.children])
+  | none => (d1, out ++ ["snap none"])
 
 def step (d : DSt) (ws : List String) : DSt × List String :=
   match ws with
@@ -152,6 +189,11 @@ def step (d : DSt) (ws : List String) : DSt × List String :=
     if d.begun ∧ k ∈ d.cur.map (·.1) then ({ d with cur := setCur d.cur k (.many vs) }, []) else (d, ["bad-op"])
   | "run" :: ord => doRun d ord false
   | "runq" :: ord => doRun d ord true
+  | "snaprun" :: ord => doSnapRun d ord
+  | ["reload"] =>
+    if !d.begun then (d, ["bad-op"]) else
+    let st := reload d.st
+    ({ d with st }, ["rl", showOuts st.outs, showChildren st.children])
   | ["data", k, v] =>
     let dl : Option DLen :=
       if v = "missing" then some .missing else if v = "nolen" then some .nolen else v.toNat?.map .len
